@@ -321,6 +321,9 @@ func TestC17(t *testing.T) {
 	r.Assume("only strings of SAN / UCI shape are generated (variants of real notations); free text around a move is outside the statement")
 	r.Assume("sort values in [ValueNA, ValueInf] = [-15001, 15000]; the one field combination that encodes to MoveNone (SetValue documented as no-op) is excluded")
 	r.Excluded("field combination encoding to MoveNone (a1a1 normal)", 1)
+	if hx.FuzzCrasher(r, "FuzzC17", genFuzzC17, propC17Notation) {
+		return
+	}
 
 	foreign := func(t *rapid.T, n int) []string {
 		var out []string
